@@ -24,48 +24,8 @@ PARSERS = {
 }
 
 
-@dataclass
-class Dec:
-    assign: Dict[str, bool]
-    outcome: Any
-    src: Optional[PathSummary] = None
-
-
-def sums_of(ctx: Ctx, fi: FunctionInfo, **kw) -> List[PathSummary]:
-    return summaries(ctx, fi, fold=lambda e: try_ev(ctx, fi, e), **kw)
-
-
-def root_name(e: Optional[ast.AST]) -> Optional[str]:
-    while isinstance(e, (ast.Attribute, ast.Subscript, ast.Call)):
-        e = e.func if isinstance(e, ast.Call) else e.value
-    return e.id if isinstance(e, ast.Name) else None
-
-
-def touches(e: Eff, roots: Sequence[str]) -> bool:
-    """The effect changes (or may change) one of the tracked objects, or leaves the loop."""
-    if e.kind in ("store", "aug", "delete"):
-        return root_name(e.target) in roots
-    if e.kind == "bind":
-        return isinstance(e.target, ast.Name) and e.target.id in roots
-    if e.kind == "expr":
-        v = e.value
-        if isinstance(v, ast.Call):
-            if root_name(v.func) in roots and isinstance(v.func, ast.Attribute):
-                return True
-            # a tracked object handed to some other callable: it may be changed there
-            return any(isinstance(n, ast.Name) and n.id in roots for a in list(v.args) + [k.value for k in v.keywords] for n in ast.walk(a))
-        return False
-    return e.kind in ("break", "return", "raise", "yield", "yieldfrom")
-
-
-def judge(ctx: Ctx, rule: str, fi: FunctionInfo, construct: str, decs: Sequence[Dec], atoms: Sequence[str], spec, dont_care: Sequence[str] = (), node=None, why: str = "", equiv=None) -> None:
-    v, u = check_table(decs, atoms, spec, lambda d: d.outcome, dont_care, equiv=equiv, strict_foreign=True)
-    if v:
-        ctx.bad(rule, fi, construct, "; ".join(v[:3]) + (f" - {why}" if why else ""), node=node or fi.node)
-    elif u:
-        raise AnalysisError(f"{fi.fq}: {construct}: " + u[0])
-    else:
-        ctx.ok(rule, fi, construct, f"{len(decs)} paths", node=node or fi.node)
+from .tables import Dec, judge, root_name, sums_of, touches
+from .tables import loop_decs as _loop_decs_generic
 
 
 def _param_loop(ctx: Ctx, fi: FunctionInfo, sums: Sequence[PathSummary]) -> Tuple[str, int]:
@@ -88,19 +48,8 @@ def _param_loop(ctx: Ctx, fi: FunctionInfo, sums: Sequence[PathSummary]) -> Tupl
     return next(iter(found))
 
 
-def _loop_decs(sums: Sequence[PathSummary], line: int, roots: Sequence[str], fix: Callable[[str], str], post=None) -> List[Dec]:
-    out = []
-    for s in sums:
-        if not any(e.kind == "for" and e.line == line for e in s.effects):
-            continue
-        eff = [e for e in s.effects if line in e.loops and touches(e, roots)]
-        texts = tuple(fix(e.text) for e in eff)
-        assign = {fix(k): v for k, v in s.atoms_in(line).items()}
-        d = Dec(assign, texts, s)
-        if post is not None:
-            d = post(d)
-        out.append(d)
-    return out
+def _loop_decs(sums, line, roots, fix, post=None):
+    return _loop_decs_generic(sums, line, roots, fix, post)
 
 
 def _multi(ctx: Ctx) -> str:
